@@ -137,6 +137,22 @@ CHECKS = {
             "binds L1 to the code; model-level counterexamples and random schedules are recorded from the code and validated by "
             "TLC against P_C17.",
             "5 C17", TECH, BOUNDS + "; histories with more than list-length+1 unconsumed taps are not expanded"),
+    "C19": ("model_checking",
+            "TLC checks the detailed model L1 (spec/Kanata.tla + spec/DynMacro.tla: record with the one-event lag, stop/truncate, "
+            "record-key-as-stop, size limit, replay pacing constant/recorded incl. the extra ticks inside one tick_ms call, nested "
+            "play, recursion guard) against the monitor P_C19 (Recorded = events typed between record and stop minus the stop key minus "
+            "the truncated tail plus any-order releases of keys still down; replay output = the P_C04 reference typing Recorded again from "
+            "the state at play time; nothing left down when idle; no self-recursion; stops by itself above 2*max+1 stored events) for every "
+            "typing history within the bounds of 8 (quick) / 11 (thorough) instances; every model transition is replayed on the real code "
+            "(stored macros, record/replay flags, executed tick count compared; zero drift required); scenario scripts enumerated beyond the "
+            "bounds (all bodies <=3/4 events x keys held across the start x five ways of stopping; nesting, recursion, re-recording, play "
+            "while recording, size limit) and random sessions are recorded from the code and validated by TLC against P_C19; model mutants "
+            "must be rejected (thorough).",
+            "5 C19", TECH,
+            "3-5 keys, <=1-3 saved macros, <=2-4 stored events, gaps 0..D ticks per instance; control keys processed before the next input "
+            "in the sharp instances (the `late` instance explores the rest: known finding); states with >=2 keys still down at the stop are "
+            "not expanded in TLC (HashSet release order) but covered by recorded scenarios; time-sensitive keys: one tap-hold key, "
+            "recorded delays, margin 1 tick; deterministic stepper; dev-profile build"),
     "C20": ("model_checking",
             "TLC explores spec/Zippy.tla (L1 transliteration of zippychord.rs: press/release/tick, constants and subset-map answers from the "
             "real parser) composed with the text-buffer reference model P_C20 (expected text defined on the history: literal typing, base ++ "
